@@ -96,7 +96,7 @@ def fromString (tbl : List Row) (s : List Ch) : Except Err Elem :=
     | some e => .ok e
     | none => match findName tbl (lower symbol) with
       | some e => .ok e
-      | none => fromLabel tbl s
+      | none => fromLabel tbl (strip s)   -- the label rule sees the stripped string too (padding is ignored on every route)
 
 /-! ### vectorised helpers: all-or-nothing range check -/
 
